@@ -12,6 +12,7 @@ import SimVerif.Queue
 import SimVerif.Tcp
 import SimVerif.Pcap
 import SimVerif.Resolver
+import SimVerif.Drv.Ext
 
 namespace SimVerif.Drv
 
@@ -81,6 +82,10 @@ structure KSt where
   wrOff : List (String × Nat) := []            -- "<socket>/<stream>" ↦ next offset to write
   wrKeys : List (Nat × String) := []
   rs : List (String × (String × R)) := []      -- resolvers: name ↦ (node, state)
+  cws : List (Nat × (String × List UInt8 × Nat × Nat)) := []   -- composed writes: id ↦ (socket, bytes left, bytes done, final handler)
+  ext : ExtSt := {}                            -- application-level components (test servers), see Drv/Ext.lean
+  complData : List (Nat × List UInt8 × String) := []   -- posted completions: bytes received and sender
+  loops : List (Nat × (String × String × Nat × Nat × Nat)) := []   -- handler ↦ (kind, socket, a, b, c): self-perpetuating transfers
   hidden : List String := []                   -- sockets of a socket-returning accept, not yet handed to the program
   pendNew : List (Nat × String) := []          -- accept handler ↦ the socket it will hand over           -- write handler ↦ its offset key                    -- capture log (reversed)
   pend : List (Nat × Nat) := []     -- timer ↦ handler id of the wait whose slot may be busy
@@ -283,7 +288,8 @@ def applyNEffs (p : KParams) : Nat → List NEff → KSt → KSt
   | _, [], s => s
   | f + 1, e :: rest, s =>
     let s := match e with
-      | .post c => { s with k := step p s.k (.post c.h), compl := s.compl ++ [(c.h, c.ec, c.extra)] }
+      | .post c => { s with k := step p s.k (.post c.h), compl := s.compl ++ [(c.h, c.ec, c.extra)],
+                            complData := if c.h ≥ 3000000 then s.complData ++ [(c.h, c.data, c.src)] else s.complData }
       | .invoke c => { s with pendInv := s.pendInv ++ [c] }
       | .forward pk => forwardPkt p f pk s
       | .armTimer owner slot e cb =>
@@ -406,6 +412,13 @@ def doInject (p : KParams) (ctx : String) (op : List String) (s : KSt) : KSt :=
   let s := forwardPkt p netFuel pk s
   s.emit ("C " ++ ctx ++ " " ++ joinSp op ++ " => -")
 
+/-- Extension points for application-level components built on the simulated API (the HTTP
+    test server, HTTP proxy, SOCKS proxy): extra scenario ops, and the completions of the
+    asynchronous operations those components start (handler ids ≥ 3000000 are theirs). -/
+structure Hooks where
+  op : KParams → String → List String → KSt → Option KSt := fun _ _ _ _ => none
+  internal : KParams → Nat → Ec → String → List UInt8 → String → KSt → Option KSt := fun _ _ _ _ _ _ _ => none
+
 /-- the deterministic payload stream of the harness: byte `i` of stream `st` -/
 def streamByte (st : Nat) (i : Nat) : UInt8 :=
   let x : UInt64 := (st.toUInt64 * 0x9E3779B97F4A7C15) ^^^ (i.toUInt64 * 0xBF58476D1CE4E5B9 + 0x94D049BB133111EB)
@@ -423,12 +436,47 @@ def splitBy : List Nat → List UInt8 → List (List UInt8)
   | [], _ => []
   | n :: rest, l => l.take n :: splitBy rest (l.drop n)
 
+def unhexBytes (s : String) : Option (List UInt8) :=
+  let v := fun (c : Char) => if '0' ≤ c && c ≤ '9' then some (c.toNat - 48) else if 'a' ≤ c && c ≤ 'f' then some (c.toNat - 87) else none
+  let rec go : List Char → Option (List UInt8)
+    | [] => some []
+    | [_] => none
+    | a :: b :: t => match v a, v b, go t with
+      | some x, some y, some r => some (UInt8.ofNat (16 * x + y) :: r)
+      | _, _, _ => none
+  go s.toList
+
 def ecRes (e : Ec) : String := toString e
 
 def objNode (op : List String) (s : KSt) : String :=
   match op with
   | _ :: nd :: _ => nd
   | _ => ((s.net.cfg.nodes.head?).map Prod.fst).getD "n0"
+
+/-- one round of `write_loop`: write the next chunk of the stream -/
+def loopWrite (p : KParams) (hn : Nat) (name : String) (stream total chunk : Nat) (s : KSt) : KSt :=
+  let key := name ++ "/" ++ toString stream
+  let off := (s.wrOff.lookup key).getD 0
+  let len := min chunk (total - min total off)
+  let data := (List.range len).map (fun i => streamByte stream (off + i))
+  let s := { s with wrKeys := (hn, key) :: s.wrKeys.filter (·.1 != hn) }
+  let r := s.net.tcpAsyncWrite name { h := hn, bufs := [data], stream := stream, off := off }
+  applyNEffs p netFuel r.2 { s with net := r.1 }
+
+/-- one `async_write_some` of a composed `boost::asio::async_write`: at most 65536 bytes of what
+    is left, completion handled by the internal callback `.composedWrite id` -/
+def cwIssue (p : KParams) (id : Nat) (s : KSt) : KSt :=
+  match s.cws.lookup id with
+  | none => s
+  | some (sock, rest, _, _) =>
+    let (s, h) := s.icb (.composedWrite id)
+    let r := s.net.tcpAsyncWrite sock { h := h, bufs := [rest.take 65536], stream := 0, off := 0 }
+    applyNEffs p netFuel r.2 { s with net := r.1 }
+
+/-- `boost::asio::async_write(sock, buffer(data), handler)` -/
+def cwStart (p : KParams) (sock : String) (data : List UInt8) (final : Nat) (s : KSt) : KSt :=
+  let id := s.cws.length
+  cwIssue p id { s with cws := s.cws ++ [(id, (sock, data, 0, final))] }
 
 /-- ops on TCP sockets (`s<k>`), acceptors (`a<k>`) and UDP sockets (`u<k>`). `none` = not a
     network op. Result strings are those of harness/simdrv_net.cpp. -/
@@ -514,7 +562,10 @@ def doNetOp (p : KParams) (ctx : String) (op : List String) (s : KSt) : Option K
             -- the connect timer is destroyed with the socket: a parked refusal is delivered now
             let s := applyNEffs p netFuel [.cancelTimer name 0] s
             some (res { s with net := { s.net with tcps := s.net.tcps.filter (·.1 != name) } } "-")
-          | "open", v :: _ => some (res (fx (s.net.tcpOpen now name (v != "v6")) s) "ok")
+          | "open", v :: _ =>
+            -- acceptor::open(): close as an acceptor first (stop listening, reset queued connections)
+            let s := if isAcc then fx (s.net.accClose now name) s else s
+            some (res (fx (s.net.tcpOpen now name (v != "v6")) s) "ok")
           | "bind", e :: _ =>
             match Ep.parse e with
             | none => some (res s "bad-op")
@@ -548,6 +599,22 @@ def doNetOp (p : KParams) (ctx : String) (op : List String) (s : KSt) : Option K
               let caps := (cutSizes ((findNat? rest "cap").getD 1) ((findNat? rest "bufs").getD 1)).filter (· > 0)
               some (res (fx (s.net.tcpAsyncRead name { h := hn, caps := caps }) s) "-")
           | "wait_read", h :: _ => (hOf h).map (fun hn => res (fx (s.net.tcpWaitRead name hn) s) "-")
+          | "send", h :: rest =>
+            (hOf h).map (fun hn =>
+              let data := ((findKv? rest "data").bind (fun x => if x == "-" then some [] else unhexBytes x)).getD []
+              res (cwStart p name data hn s) "-")
+          | "read_loop", h :: rest =>
+            (hOf h).map (fun hn =>
+              let cap := (findNat? rest "cap").getD 4096
+              let s := { s with loops := (hn, ("read", name, cap, 0, 0)) :: s.loops.filter (·.1 != hn) }
+              res (fx (s.net.tcpAsyncRead name { h := hn, caps := [cap] }) s) "-")
+          | "write_loop", h :: rest =>
+            (hOf h).map (fun hn =>
+              let stream := (findNat? rest "stream").getD 0
+              let total := (findNat? rest "total").getD 1
+              let chunk := (findNat? rest "chunk").getD 1000
+              let s := { s with loops := (hn, ("write", name, stream, total, chunk)) :: s.loops.filter (·.1 != hn) }
+              res (loopWrite p hn name stream total chunk s) "-")
           | "read_nb", rest =>
             let caps := (cutSizes ((findNat? rest "cap").getD 1) ((findNat? rest "bufs").getD 1)).filter (· > 0)
             let r := s.net.tcpReadNb name caps
@@ -656,7 +723,7 @@ def doResolverOp (p : KParams) (rp : RParams) (ctx : String) (op : List String) 
 
 mutual
 /-- Execute one op of context `ctx` (depth bounds inline `dispatch` nesting). -/
-def doOp (p : KParams) (scn : Scn) (depth : Nat) (ctx : String) (op : List String) (s : KSt) : KSt :=
+def doOp (p : KParams) (scn : Scn) (hk : Hooks) (depth : Nat) (ctx : String) (op : List String) (s : KSt) : KSt :=
   let text := joinSp op
   let c := "C " ++ ctx ++ " "
   match op with
@@ -679,10 +746,13 @@ def doOp (p : KParams) (scn : Scn) (depth : Nat) (ctx : String) (op : List Strin
         | 0 => { s with bad := true }
         | d + 1 =>
           let s := s.emit ("H " ++ h ++ " t=" ++ toString s.k.now ++ " ec=ok incall=1")
-          let s := doOps p scn d h (scn.ops h) s
+          let s := doOps p scn hk d h (scn.ops h) s
           s.emit (c ++ text ++ " => -")
     | none => { s with bad := true }
   | o :: args =>
+    match hk.op p ctx op s with
+    | some s' => s'
+    | none =>
     match doNetOp p ctx op s with
     | some s' => s'
     | none =>
@@ -731,16 +801,16 @@ def doOp (p : KParams) (scn : Scn) (depth : Nat) (ctx : String) (op : List Strin
       | _, _ => s.emit (c ++ text ++ " => bad-op")
   | [] => s
 
-def doOps (p : KParams) (scn : Scn) (depth : Nat) (ctx : String) (ops : List (List String)) (s : KSt) : KSt :=
+def doOps (p : KParams) (scn : Scn) (hk : Hooks) (depth : Nat) (ctx : String) (ops : List (List String)) (s : KSt) : KSt :=
   match ops with
   | [] => s
   | op :: rest =>
-    let s := doOp p scn depth ctx op s
-    if s.thrown then s else doOps p scn depth ctx rest s
+    let s := doOp p scn hk depth ctx op s
+    if s.thrown then s else doOps p scn hk depth ctx rest s
 end
 
 /-- `poll()`: run ready handlers until none is left. Returns the count. -/
-def pollLoop (p : KParams) (scn : Scn) : Nat → KSt → Nat → KSt × Nat
+def pollLoop (p : KParams) (scn : Scn) (hk : Hooks) : Nat → KSt → Nat → KSt × Nat
   | 0, s, n => ({ s with bad := true }, n)
   | f + 1, s, n =>
     match s.k.ready with
@@ -748,7 +818,17 @@ def pollLoop (p : KParams) (scn : Scn) : Nat → KSt → Nat → KSt × Nat
     | t :: _ =>
       let s := { s with k := step p s.k .exec }
       let s :=
-        if t.h ≥ 2000000 then
+        if t.h ≥ 3000000 then
+          -- a completion belonging to an application-level component
+          let (ec, extra) := match s.compl.lookup t.h with
+            | some (e, x) => (e, x)
+            | none => (t.ec, "")
+          let (data, src) := (s.complData.lookup t.h).getD ([], "")
+          let s := { s with compl := s.compl.filter (·.1 != t.h), complData := s.complData.filter (·.1 != t.h) }
+          match hk.internal p t.h ec extra data src s with
+          | some s' => s'
+          | none => { s with bad := true }
+        else if t.h ≥ 2000000 then
           -- an internal timer callback of a socket
           let s := match s.icbs[t.h - 2000000]? with
             | some (.udpSendWait name) =>
@@ -769,16 +849,36 @@ def pollLoop (p : KParams) (scn : Scn) : Nat → KSt → Nat → KSt × Nat
                     let s := s.setR name r1
                     { s with pendInv := s.pendInv ++ [({ h := v.h, ec := v.err, extra := resExtra v.res } : Compl)],
                              pendFinish := some (name, empty) }
+            | some (.composedWrite id) =>
+              -- intermediate completion of a composed write: go on, or call the final handler inline
+              let (ec, extra) := match s.compl.lookup t.h with
+                | some (e, x) => (e, x)
+                | none => (t.ec, "")
+              let s := { s with compl := s.compl.filter (·.1 != t.h) }
+              let n := (findNat? (extra.splitOn " ") "n").getD 0
+              match s.cws.lookup id with
+              | none => s
+              | some (sock, rest, done, final) =>
+                let rest' := rest.drop n
+                let done' := done + n
+                let s := { s with cws := s.cws.map (fun (e : Nat × (String × List UInt8 × Nat × Nat)) => if e.1 == id then (id, (sock, rest', done', final)) else e) }
+                if ec == Ec.ok && n != 0 && !rest'.isEmpty then cwIssue p id s
+                else { s with pendInv := s.pendInv ++ [({ h := final, ec := ec, extra := "n=" ++ toString done' } : Compl)] }
             | some (.tcpConnectRefused _ h) =>
               -- the handler was bound together with the refusal; the timer's own code is ignored
               { s with pendInv := s.pendInv ++ [({ h := h, ec := Ec.refused } : Compl)] }
             | none => { s with bad := true }
           let inv := s.pendInv
           inv.foldl (fun (s : KSt) (c : Compl) =>
+            if c.h ≥ 3000000 then
+              (match hk.internal p c.h c.ec c.extra c.data c.src s with
+               | some s' => s'
+               | none => { s with bad := true })
+            else
             let h := "h" ++ toString c.h
             let s := s.emit ("H " ++ h ++ " t=" ++ toString s.k.now ++ " ec=" ++ toString c.ec
               ++ (if c.extra.isEmpty then "" else " " ++ c.extra) ++ " incall=0")
-            doOps p scn 8 h (scn.ops h) s) { s with pendInv := [] }
+            doOps p scn hk 8 h (scn.ops h) s) { s with pendInv := [] }
           |> (fun (s : KSt) =>
             match s.pendFinish with
             | none => s
@@ -809,15 +909,26 @@ def pollLoop (p : KParams) (scn : Scn) : Nat → KSt → Nat → KSt × Nat
           let s := match s.pendNew.lookup t.h with
             | some nn => { s with hidden := s.hidden.filter (· != nn), pendNew := s.pendNew.filter (·.1 != t.h) }
             | none => s
-          doOps p scn 8 h (scn.ops h) s
+          -- self-perpetuating transfers re-issue themselves; their context's ops run when they end
+          match s.loops.lookup t.h with
+          | some ("read", sock, cap, _, _) =>
+            if ec == Ec.ok then
+              let r := s.net.tcpAsyncRead sock { h := t.h, caps := [cap] }
+              applyNEffs p netFuel r.2 { s with net := r.1 }
+            else doOps p scn hk 8 h (scn.ops h) { s with loops := s.loops.filter (·.1 != t.h) }
+          | some ("write", sock, stream, total, chunk) =>
+            let key := sock ++ "/" ++ toString stream
+            if ec == Ec.ok && (s.wrOff.lookup key).getD 0 < total then loopWrite p t.h sock stream total chunk s
+            else doOps p scn hk 8 h (scn.ops h) { s with loops := s.loops.filter (·.1 != t.h) }
+          | _ => doOps p scn hk 8 h (scn.ops h) s
       -- an exception leaves poll_one() at once: no step hook, no further handler
       if s.thrown then (s, n) else
       -- step hook `after_handler`: scenario ops placed at this event boundary
       let s := { s with stepNo := s.stepNo + 1 }
       let sc := "s" ++ toString s.stepNo
-      let s := doOps p scn 8 sc (scn.ops sc) s
+      let s := doOps p scn hk 8 sc (scn.ops sc) s
       if s.thrown then (s, n + 1) else
-      pollLoop p scn f s (n + 1)
+      pollLoop p scn hk f s (n + 1)
 
 /-- order of `std::map<endpoint, …>`: IPv4 before IPv6, then address, then port -/
 def epLe (a b : Ep) : Bool :=
@@ -846,30 +957,30 @@ def runCatch (p : KParams) (s : KSt) : KSt :=
   { s with k := step p s.k .stop, thrown := false, threw := true }
 
 /-- `simulation::run()` -/
-def runLoop (p : KParams) (scn : Scn) : Nat → KSt → Nat → KSt × Nat
+def runLoop (p : KParams) (scn : Scn) (hk : Hooks) : Nat → KSt → Nat → KSt × Nat
   | 0, s, r => ({ s with bad := true }, r)
   | f + 1, s, ret =>
-    let (s, n) := pollLoop p scn 100000 s 0
+    let (s, n) := pollLoop p scn hk 100000 s 0
     if s.thrown then (runCatch p s, ret + n) else
     let s := s.emit ("K idle t=" ++ toString s.k.now)
     let m := (advance p s.k).2
     let s := { s with k := step p s.k .advance }
     let last := n + m
-    if last > 0 && !s.k.stopped then runLoop p scn f s (ret + last)
+    if last > 0 && !s.k.stopped then runLoop p scn hk f s (ret + last)
     else (s, ret + last)
 
-def runTop (p : KParams) (scn : Scn) : List (List String) → KSt → KSt
+def runTop (p : KParams) (scn : Scn) (hk : Hooks) : List (List String) → KSt → KSt
   | [], s => s
   | ["run"] :: rest, s =>
     let s := s.emit "C top run"
-    let (s, r) := runLoop p scn 100000 s 0
+    let (s, r) := runLoop p scn hk 100000 s 0
     let s := if s.threw then { s with threw := false }.emit ("R top run => throw t=" ++ toString s.k.now)
              else s.emit ("R top run => n=" ++ toString r ++ " t=" ++ toString s.k.now)
-    runTop p scn rest s
-  | op :: rest, s => runTop p scn rest (doOp p scn 8 "top" op s)
+    runTop p scn hk rest s
+  | op :: rest, s => runTop p scn hk rest (doOp p scn hk 8 "top" op s)
 
-def kernelTrace (p : KParams) (scn : Scn) : List String :=
-  let s := runTop p scn (scn.ops "top") (({} : KSt).declare scn.decl)
+def kernelTrace (p : KParams) (scn : Scn) (hk : Hooks := {}) : List String :=
+  let s := runTop p scn hk (scn.ops "top") (({} : KSt).declare scn.decl)
   let s := s.emit ("Q t=" ++ toString s.k.now)
   let s := if s.net.cfg.pcap then s.emit ("F pcap " ++ hexOf (Pcap.fileHeader ++ s.capture.reverse.flatten)) else s
   let body := s.out.reverse
